@@ -108,7 +108,10 @@ func (d *Decimal) setString(c *Context, s string) (Condition, error) {
 	if !d.Negative {
 		s, _ = consumePrefix(s, "+")
 	}
-	s = strings.ToLower(s)
+	// Only ASCII letters are case-insensitive in a numeric string.
+	// strings.ToLower would also map other letters to ASCII ones (U+0130 to
+	// "i"), making "İnf" an infinity.
+	s = lowerASCII(s)
 	d.Exponent = 0
 	d.Coeff.SetInt64(0)
 	// Until there are no parse errors, leave as NaN.
@@ -133,11 +136,11 @@ func (d *Decimal) setString(c *Context, s string) (Condition, error) {
 		}
 	}
 	if isNaN {
-		if s != "" {
-			// We ignore these digits, but must verify them.
-			_, err := strconv.ParseUint(s, 10, 64)
-			if err != nil {
-				return 0, fmt.Errorf("parse payload: %s: %w", s, err)
+		// We ignore the payload digits, but must verify them. There may be
+		// any number of them.
+		for i := 0; i < len(s); i++ {
+			if s[i] < '0' || s[i] > '9' {
+				return 0, fmt.Errorf("parse payload: %s: invalid syntax", s)
 			}
 		}
 		return 0, nil
@@ -167,7 +170,30 @@ func (d *Decimal) setString(c *Context, s string) (Condition, error) {
 	}
 	// No parse errors, can now flag as finite.
 	d.Form = Finite
-	return c.goError(d.setExponent(c, unknownNumDigits, 0, exps...))
+	res := d.setExponent(c, unknownNumDigits, 0, exps...)
+	if res.SystemOverflow() || res.SystemUnderflow() {
+		// The exponent is outside of the package limits and was not stored.
+		// Do not leave a finite value that looks valid behind.
+		d.Form = NaN
+	}
+	return c.goError(res)
+}
+
+// lowerASCII returns s with the ASCII upper case letters mapped to lower case
+// and every other byte unchanged.
+func lowerASCII(s string) string {
+	for i := 0; i < len(s); i++ {
+		if c := s[i]; 'A' <= c && c <= 'Z' {
+			b := []byte(s)
+			for ; i < len(b); i++ {
+				if c := b[i]; 'A' <= c && c <= 'Z' {
+					b[i] = c + ('a' - 'A')
+				}
+			}
+			return string(b)
+		}
+	}
+	return s
 }
 
 // NewFromString creates a new decimal from s. It has no restrictions on
